@@ -547,14 +547,18 @@ class Evaluator:
                 return self.eval(n["else"], env, st) if n.get("else") else ("tup", [])
             env_e = dict(env)
             rt = re_ = None
+            self.cond_depth = getattr(self, "cond_depth", 0) + 1  # calls recorded from here on happen only on some paths
             try:
-                t = self.eval(n["then"], env_t, st)
-            except _Return as r:
-                rt, t = r, ("never",)
-            try:
-                e = self.eval(n["else"], env_e, st) if n.get("else") else ("tup", [])
-            except _Return as r:
-                re_, e = r, ("never",)
+                try:
+                    t = self.eval(n["then"], env_t, st)
+                except _Return as r:
+                    rt, t = r, ("never",)
+                try:
+                    e = self.eval(n["else"], env_e, st) if n.get("else") else ("tup", [])
+                except _Return as r:
+                    re_, e = r, ("never",)
+            finally:
+                self.cond_depth -= 1
             if rt is not None and re_ is not None:
                 if _is_err(rt.value):
                     raise re_
@@ -910,7 +914,7 @@ class Evaluator:
         if recv is None and rty in self.type_alias:
             recv = ("obj", self.type_alias[rty])
         if name in self.watch:
-            self.calls.append(dict(name=name, recv=recv, args=args, line=n.get("line")))
+            self.calls.append(dict(name=name, recv=recv, args=args, line=n.get("line"), cond=getattr(self, "cond_depth", 0) > 0))
         if any(sc.get("tick") == name for sc in self.script.values()):
             self.ticks[name] = self.ticks.get(name, 0) + 1
         if name in self.script:
@@ -930,6 +934,12 @@ class Evaluator:
             return ("bool", not (args[0][1] in self.absent or (self.present is not None and args[0][1] not in self.present)))
         if name == "has_attr" and len(args) == 1 and args[0] is not None and not is_form(args[0]) and args[0][0] == "str" and "SvgElement" in rty:
             return ("bool", not (args[0][1] in self.absent or (self.present is not None and args[0][1] not in self.present)))
+        if name == "unwrap_or_default" and recv is not None and not is_form(recv) and recv[0] in ("some", "none") and rty.startswith("std::option::Option"):
+            if recv[0] == "some":
+                return recv[1]
+            if rty in ("std::option::Option<f32>", "std::option::Option<f64>"):
+                return {}
+            return None
         if name in TRANSPARENT or name in self.transparent:
             return recv
         if name in ("to_string", "to_owned", "as_str") and recv is not None and not is_form(recv) and recv[0] in ("str", "fmt"):
@@ -1003,7 +1013,7 @@ class Evaluator:
         last = path.split("::")[-1]
         args = [self.eval(a, env, st) for a in n["args"]]
         if last in self.watch:
-            self.calls.append(dict(name=last, recv=None, args=args, line=n.get("line")))
+            self.calls.append(dict(name=last, recv=None, args=args, line=n.get("line"), cond=getattr(self, "cond_depth", 0) > 0))
         if last in self.numbered:
             self.counters[last] = self.counters.get(last, 0) + 1
             return atom(f"{last}{self.counters[last]}", [])
